@@ -70,6 +70,7 @@ func TransformModuleFilesToModel( //nolint:funlen,gocognit,cyclop
 	rawTypeDefs := []*openfgav1.TypeDefinition{}
 	types := []string{}
 	extendedTypeDefs := map[string][]*openfgav1.TypeDefinition{}
+	extendingFiles := []string{}
 	conditions := map[string]*openfgav1.Condition{}
 	moduleFiles := map[string][]string{}
 
@@ -118,6 +119,7 @@ func TransformModuleFilesToModel( //nolint:funlen,gocognit,cyclop
 			if extension {
 				if extendedTypeDefs[module.Name] == nil {
 					extendedTypeDefs[module.Name] = []*openfgav1.TypeDefinition{}
+					extendingFiles = append(extendingFiles, module.Name)
 				}
 
 				extendedTypeDefs[module.Name] = append(extendedTypeDefs[module.Name], typeDef)
@@ -139,7 +141,9 @@ func TransformModuleFilesToModel( //nolint:funlen,gocognit,cyclop
 			rawTypeDefs = append(rawTypeDefs, typeDef)
 		}
 
-		for name, condition := range mdl.GetConditions() {
+		for _, name := range sortedKeys(mdl.GetConditions()) {
+			condition := mdl.GetConditions()[name]
+
 			if _, ok := conditions[name]; ok {
 				lineIndex := utils.GetConditionLineNumber(name, lines)
 				line, col := utils.ConstructLineAndColumnData(lines, lineIndex, name)
@@ -160,7 +164,10 @@ func TransformModuleFilesToModel( //nolint:funlen,gocognit,cyclop
 		}
 	}
 
-	for filename, typeDefs := range extendedTypeDefs {
+	// Extensions are applied in the order of the module list, and maps are visited in key order,
+	// so that the outcome (including the order and attribution of errors) is deterministic.
+	for _, filename := range extendingFiles {
+		typeDefs := extendedTypeDefs[filename]
 		lines := moduleFiles[filename]
 
 		for _, typeDef := range typeDefs {
@@ -210,7 +217,9 @@ func TransformModuleFilesToModel( //nolint:funlen,gocognit,cyclop
 				existingRelationNames = append(existingRelationNames, name)
 			}
 
-			for name, relation := range typeDef.GetRelations() {
+			for _, name := range sortedKeys(typeDef.GetRelations()) {
+				relation := typeDef.GetRelations()[name]
+
 				if slices.Contains(existingRelationNames, name) {
 					lineIndex := utils.GetRelationLineNumber(name, lines)
 					line, col := utils.ConstructLineAndColumnData(lines, lineIndex, name)
@@ -253,4 +262,15 @@ func TransformModuleFilesToModel( //nolint:funlen,gocognit,cyclop
 	}
 
 	return model, nil
+}
+
+func sortedKeys[V any](m map[string]V) []string {
+	keys := make([]string, 0, len(m))
+	for key := range m {
+		keys = append(keys, key)
+	}
+
+	slices.Sort(keys)
+
+	return keys
 }
